@@ -172,6 +172,7 @@ class Path:
         self.visits = {}
         self.end = None  # 'return' | 'stop' | 'abort' | 'bound'
         self.decls = {}  # symbol -> sort
+        self.havoced = []  # (place-key prefix, generation): sub-places written by a callee through a &mut argument
 
     def clone(self):
         p = Path()
@@ -182,6 +183,7 @@ class Path:
         p.events = list(self.events)
         p.trace = list(self.trace)
         p.visits = dict(self.visits)
+        p.havoced = list(self.havoced)
         p.decls = self.decls  # shared
         return p
 
@@ -271,7 +273,11 @@ class Sym:
             parent = path.store.get(self.key(rp[1]))
             if parent is not None and parent.kind == "tuple" and rp[2] < len(parent.items):
                 return parent.items[rp[2]]
-        v = self.sym_for(key, ty)
+        gen = 0
+        for pfx, g in path.havoced:
+            if key == pfx or key.startswith(pfx + ".") or key.startswith("*" + pfx) or key.startswith(pfx + "#"):
+                gen = max(gen, g)
+        v = self.sym_for(key if gen == 0 else "%s@%d" % (key, gen), ty)
         path.store[key] = v
         return v
 
@@ -406,11 +412,12 @@ class Sym:
             return v, rp
         if s.startswith("const "):
             return self.constant(s[6:]), None
-        m = re.match(r"&(?:raw (?:const|mut) )?(?:mut )?(?:fake shallow )?(.*)$", s)
+        m = re.match(r"&(raw (?:const|mut) )?(mut )?(?:fake shallow )?(.*)$", s)
         if m and not s.startswith("&&"):
             try:
-                p = parse_place(m.group(1))
-                return V("ref", t=self.resolve(path, p)), None
+                p = parse_place(m.group(3))
+                mutable = bool(m.group(2)) or (m.group(1) or "").strip() == "raw mut"
+                return V("ref", t=self.resolve(path, p), signed=mutable), None
             except Exception:
                 pass
         m = re.match(r"(copy|move) (.*) as (.*) \((\w+).*\)$", s)
@@ -489,7 +496,7 @@ class Sym:
             rp = p
         self.store_val(path, rp, v)
 
-    def run(self, entry, stop_blocks=(), stop_after=None, init=None, max_paths=256):
+    def run(self, entry, stop_blocks=(), stop_after=None, init=None, max_paths=256, stop_at_call=None):
         """entry: bb name. stop_after: callable(block_name, stmt_text)->bool evaluated after each statement.
         Returns list of finished Paths."""
         start = Path()
@@ -589,6 +596,9 @@ class Sym:
                 work.append((path, t["target"]))
             elif k == "yield":
                 work.append((path, t["target"]))
+            elif k == "call" and stop_at_call and re.search(stop_at_call, t["func"]):
+                path.end = "stop"
+                done.append(path)
             elif k == "call":
                 args = []
                 for a in t["args"]:
@@ -605,6 +615,14 @@ class Sym:
                         break
                 path.events.append((t["func"], [getattr(a, "t", None) for a in args], bb))
                 if res is None:
+                    # an unmodelled callee may write through every `&mut` argument: forget what is known below it
+                    for a in args:
+                        if a.kind == "ref" and a.signed:
+                            pfx = self.key(a.t)
+                            self.fresh += 1
+                            path.havoced.append((pfx, self.fresh))
+                            for k_ in [k_ for k_ in path.store if k_ == pfx or k_.startswith(pfx + ".") or k_.startswith("*" + pfx) or k_.startswith(pfx + "#")]:
+                                del path.store[k_]
                     res = self.havoc(dty, "call")
                 rp = self.resolve(path, dp)
                 if dp[0] == "local" and dp[1] in path.alias:
@@ -690,7 +708,16 @@ def m_index_range(sym, path, args, dty):
     return None  # result (a slice reference) is opaque
 
 
+def m_deref(sym, path, args, dty):
+    """`Deref::deref(&x)` / `DerefMut::deref_mut(&mut x)`: a reference to the canonical pointee `*x` (same for every call)."""
+    a = args[0]
+    if a.kind == "ref":
+        return V("ref", t=("deref", a.t), signed=a.signed)
+    return None
+
+
 STD_MODELS = {
+    r"as Deref>::deref$|as DerefMut>::deref_mut$": m_deref,
     r"^(std::vec::)?Vec::<.*>::len$|^core::slice::<impl \[.*\]>::len$": m_len,
     r"as (std::ops::)?Index<(std::ops::)?Range<usize>>>::index$": m_index_range,
     r"^(std|core)::cmp::min::<[ui]\w+>$": m_min,
